@@ -70,12 +70,12 @@ PROPS["C07"] = {
     "witness_always": ["stdlib_expansion"],
     "witness_bound": {"stdlib_expansion": "2202 generated conditional trees of depth <= 3 (\\iftrue/\\iffalse/\\ifnum/\\ifodd incl. negative operands/\\ifcase -1..3, \\let aliases, unbalanced braces in skipped text, blanks and relations produced by macro expansion) against a tree evaluator; every token string of length <= 6 over {\\expandafter, three macros, a letter, a macro with a DELIMITED parameter (which grabs tokens unexpanded, so the moment of each expansion shows in the output)} (42856 strings without runaway arguments) expanded by BOTH \\expandafter implementations against a transcription of TeX's expand-once rule"},
     "level": "proof",
-    "verus": ["stdlib_cond", "stdlib_expandafter", "texlang_parse_int"],
+    "verus": ["stdlib_cond", "stdlib_expandafter", "texlang_streams", "texlang_parse_int"],
     "kani": [],
     "unverified_callers": [
         "Condition::build_if_command closure (evaluate -> true_case/false_case dispatch) and the VM expansion loop",
         "Parsable for (i32, Ordering, i32) (a macro-generated tuple impl) is assumed to return an arbitrary triple; its three components are proved separately in unit texlang_parse_int (i32 == parse_integer, Ordering == TeX 503: < = > of category 12 after skipping blanks, else Missing = inserted)",
-        "expansion.rs: both \\expandafter implementations are PROVED to satisfy the same postcondition (TeX's rule) over a trusted model of ExpandedStream::expand_once (one step on the first pending token; on an \\expandafter token that step is the rule itself - the induction hypothesis); noexpand_hook is proved (fast path: nothing happens unless the tag is \\noexpand's; slow path: the next token is taken unexpanded and handed back); how the VM then delivers that token (streams.rs next_expanded / expand_once) is VM-internal dispatch and NOT decided",
+        "expansion.rs: both \\expandafter implementations are PROVED to satisfy the same postcondition (TeX's rule) over a trusted model of ExpandedStream::expand_once (one step on the first pending token; on an \\expandafter token that step is the rule itself - the induction hypothesis); noexpand_hook is proved (fast path: nothing happens unless the tag is \\noexpand's; slow path: the next token is taken unexpanded and handed back); how the VM then delivers that token is PROVED in unit texlang_streams: stream::expand_once == `expand_step` (TeX 366-367: nothing pending -> false; a token that is not an expansion primitive or a macro is PUT BACK intact and false is returned; for an expansion primitive the override hook is asked first - Override(o): o is pushed and true returned, without running the primitive -, otherwise the primitive runs between stack_push and stack_pop, the pop also on failure; a macro goes to Macro::call) and stream::next_expanded delivers only tokens that are not expandable under the command map in force or that the override hook handed over (partial correctness: TeX programs need not terminate, the function carries exec_allows_no_decreases_clause). Function pointers are opaque values there and calling one is a trusted stub (rule R30); the effects of the hook, of a primitive and of Macro::call on the VM are oracles",
         "command tags preserved by \\let (assumed: tag_of reads the tag of the aliased command)",
     ],
     "assumptions": ["the four conditional tags are pairwise distinct (StaticTag uniqueness, C20 tag clause)", "fewer than 2^31 - 65536 pending tokens (depth counter is an i32)"],
@@ -166,7 +166,7 @@ PROPS["C02"] = {
 PROPS["C09"] = {
     "level": "proof",
     "only_kinds": ["overflow", "div-by-zero", "bounds", "precondition", "shift", "assertion", "concrete-counterexample", "kani"],
-    "verus": ["common_scaled", "texlang_parse_int", "texlang_parse_keyword", "texlang_parse_dimen", "texlang_parse_glue", "stdlib_math", "stdext_groupingmap", "stdext_kmp", "texlang_savestack", "texlang_cmdmap", "texlang_vmgroups", "stdlib_prefix", "stdlib_cond", "stdlib_expandafter", "texlang_macro", "texlang_macrocall", "stdlib_def", "stdlib_defprim"],
+    "verus": ["common_scaled", "texlang_parse_int", "texlang_parse_keyword", "texlang_parse_dimen", "texlang_parse_glue", "stdlib_math", "stdext_groupingmap", "stdext_kmp", "texlang_savestack", "texlang_cmdmap", "texlang_vmgroups", "stdlib_prefix", "stdlib_cond", "stdlib_expandafter", "texlang_macro", "texlang_macrocall", "stdlib_def", "stdlib_defprim", "texlang_streams"],
     "kani": [],
     "witness_always": ["texlang_parse_num", "stdlib_totality"],
     "witness_fns": {"texlang_parse_num": ["parse_impl", "parse_constant", "scan_dimen"]},
